@@ -14,11 +14,32 @@ func init() { register("C09", checkC09) }
 // reloadEntries: functions of package app that read the config file, parse and compile it and
 // can reach a store to runtimeState (role: reloadConfig).
 func reloadEntries(p *Program) []*ssa.Function {
+	if p.reloadEnt != nil {
+		return p.reloadEnt
+	}
 	var out []*ssa.Function
-	for _, fn := range p.FuncsInPkg("app") {
-		if fn.Parent() != nil {
+	// helpers of the package are part of the entry (reading and compiling the file may sit in one), except functions
+	// that take the runtime state themselves: those are steps the rules name
+	takesStateFn := func(f *ssa.Function) bool {
+		for _, prm := range f.Params {
+			if namedName(prm.Type()) == "runtimeState" {
+				return true
+			}
+		}
+		return false
+	}
+	for _, orig := range p.FuncsInPkg("app") {
+		if orig.Parent() != nil || !takesStateFn(orig) {
 			continue
 		}
+		fn := p.ViewKeeping(orig, func(f *ssa.Function) bool {
+			if takesStateFn(f) {
+				return true
+			}
+			// the restart-required predicate (old, new compiled configuration) is a step of its own, too
+			ps, rs := f.Signature.Params(), f.Signature.Results()
+			return ps.Len() == 2 && namedName(ps.At(0).Type()) == "Compiled" && namedName(ps.At(1).Type()) == "Compiled" && rs.Len() == 1 && types.Identical(rs.At(0).Type(), types.Typ[types.Bool])
+		})
 		hasParse := len(allCalls(fn, func(ci ssa.CallInstruction) bool { return calleeIs(ci, modPath+"/internal/config", "", "Parse") })) > 0
 		hasCompile := len(allCalls(fn, func(ci ssa.CallInstruction) bool { return calleeIs(ci, modPath+"/internal/config", "", "Compile") })) > 0
 		hasRead := len(allCalls(fn, func(ci ssa.CallInstruction) bool { return calleeIs(ci, "os", "", "ReadFile") })) > 0
@@ -44,6 +65,7 @@ func reloadEntries(p *Program) []*ssa.Function {
 			out = append(out, fn)
 		}
 	}
+	p.reloadEnt = out
 	return out
 }
 
